@@ -98,7 +98,10 @@ def query_src(rng, cls):
         if cls == "postgresql" and rng.random() < 0.5:
             if rng.random() < 0.5:
                 feat = "pg-on-conflict"
-                s += ".on_conflict(A.a).do_update(A.b, 1)"
+                s += rng.choice([".on_conflict(A.a).do_update(A.b, 1)", ".on_conflict(A.a).where(A.a > 1).do_update(A.b, 1)",
+                                 ".on_conflict(A.a).do_update(A.b, 1).where(A.b > 2)", ".on_conflict(A.a).do_update(A.b).where(A.b > C.a)",
+                                 ".on_conflict(A.a).where(A.a > 1).do_update(A.b, A.a + 1).where(A.b > 2)",
+                                 ".on_conflict(A.a, A.b).where(A.c == 1).do_update(A.b, 1).do_update(A.a).where(A.a < A.b).returning(A.a)"])
             else:
                 feat = "pg-returning"
                 s += ".returning(A.a)"
